@@ -23,7 +23,10 @@ impl UBig {
                 .as_typed()
                 .pow(exp)
                 .into_typed()
-                .shl(exp * shift)
+                .shl(
+                    exp.checked_mul(shift)
+                        .unwrap_or_else(|| crate::error::panic_allocate_too_much()),
+                )
         } else {
             self.repr().pow(exp)
         };
@@ -56,7 +59,10 @@ impl IBig {
                 .as_typed()
                 .pow(exp)
                 .into_typed()
-                .shl(exp * shift)
+                .shl(
+                    exp.checked_mul(shift)
+                        .unwrap_or_else(|| crate::error::panic_allocate_too_much()),
+                )
         } else {
             mag.pow(exp)
         };
